@@ -59,6 +59,9 @@ func tokenFor(p unsafe.Pointer) uint64 {
 	}
 	tok := addrBase + n*0x40
 	if v > 0 {
+		if R.active {
+			R.st.AddrNonAsc++
+		}
 		tok = addrBase - uint64(v)*0x40
 		for clash := true; clash; {
 			clash = false
